@@ -180,6 +180,13 @@ class Buck4_Spline(object):
     self._attach_point = attach_point
     self._r_min = r_min
 
+    # The stationary point has to lie inside the splined region (this is what the spline() modifier
+    # requires of buck4_spline too), otherwise the coefficient system is singular or describes
+    # polynomials used outside the range they were fitted to.
+    if not detach_point.r < r_min < attach_point.r:
+      raise ValueError("four-range Buckingham spline requires r_detach < r_min < r_attach, found: {} < {} < {}".format(
+        detach_point.r, r_min, attach_point.r))
+
     self._init_spline_coefficients()
 
 
